@@ -147,8 +147,8 @@ impl Ev {
         if self.violations.len() >= 8 {
             return;
         }
-        let dir = "/verif/evidence/replays";
-        let _ = std::fs::create_dir_all(dir);
+        let dir = format!("{}/replays", crate::evidence_dir());
+        let _ = std::fs::create_dir_all(&dir);
         let path = format!(
             "{dir}/{}-{}-{}.json",
             self.prop,
